@@ -453,11 +453,9 @@ fn diff(a: &PnmOut, b: &PnmOut) -> &'static str {
         (PnmOut::Err(_), PnmOut::Ok { .. }) => "err-vs-ok",
         (PnmOut::Ok { .. }, PnmOut::Err(_)) => "ok-vs-err",
         (PnmOut::Err(x), PnmOut::Err(y)) => {
-            if x == y {
-                "equal"
-            } else {
-                "error-kind"
-            }
+            // which error is not part of either property: "or an error"
+            let _ = (x, y);
+            "equal"
         }
     }
 }
@@ -497,7 +495,14 @@ pub fn run(scn: &PnmScenario, record: bool) -> RunResult {
                     if w == 0 || h == 0 {
                         rr.probe("zero-area image written");
                     }
-                    if !hostile {
+                    // std has no retrying helper for `flush`: a library that flushes itself and
+                    // hands an interrupted flush on to its caller is within its rights.
+                    let flush_interrupted = led.get(K::eintr_flush) > 0
+                        && matches!(&wres, Err(e) if e.kind() == io::ErrorKind::Interrupted);
+                    if flush_interrupted {
+                        rr.probe("library's own flush was interrupted and it said so (tolerated)");
+                    }
+                    if !hostile && !flush_interrupted {
                         // C: a merely awkward sink must not make the write fail
                         rr.oracle("C", acked);
                         if !acked {
@@ -566,7 +571,12 @@ pub fn run(scn: &PnmScenario, record: bool) -> RunResult {
                 let mut scratch = RunResult::default();
                 let a = observe(a, "", &None, &mut scratch);
                 let b = observe(b, "", &None, &mut scratch);
-                let d = diff(&a, &b);
+                let mut d = diff(&a, &b);
+                if !f.zero_pad.is_empty() && (d == "err-vs-ok" || d == "ok-vs-err") {
+                    // zero-padded numerals: refusing them is defensible, and only the
+                    // text spelling has numerals in its raster
+                    d = "equal";
+                }
                 rr.oracle("E", d == "equal");
                 if d != "equal" {
                     rr.violate(Violation::new(
@@ -620,6 +630,15 @@ pub fn run(scn: &PnmScenario, record: bool) -> RunResult {
     // X: exact agreement with the reference wherever it accepts
     if let Some(out) = &base_out {
         match (&refv.header, &refv.body) {
+            (Some(hd), RefBody::Rgb(px)) if hd.max != 255 => {
+                // whether samples are rescaled when maxval is not 255 is not pinned by C13
+                let ok = matches!(out, PnmOut::Ok { w, h, px: p } if (*w, *h) == (hd.w, hd.h) && p.len() == px.len())
+                    || (refv.soft && matches!(out, PnmOut::Err(_)));
+                rr.oracle("X", ok);
+                if !ok {
+                    rr.violate(Violation::new("X", "shape", format!("parse_pnm on a well-formed P{} file of {}x{} (maxval {}): got {}", hd.fmt, hd.w, hd.h, hd.max, out.brief())));
+                }
+            }
             (Some(hd), RefBody::Rgb(px)) => {
                 let want = PnmOut::Ok { w: hd.w, h: hd.h, px: px.clone() };
                 let mut d = diff(out, &want);
